@@ -15,7 +15,8 @@ package c05
 //
 // Contract X dispatches on calldata word 0: 0 keep value, 1 revert, 2 loop (out of gas), 3 forward
 // w wei to B, 4 selfdestruct(B), 5 selfdestruct(self), 6 forward then revert, 7 call the FunToken
-// precompile bankMsgSend(B, unibi, w), 8 the same then revert.  Contract Y sends 5 unibi to B2, then
+// precompile bankMsgSend(to, unibi, w), 8 the same then revert, 9 forward w wei to `to` by CALL and then
+// bankMsgSend(to, unibi, pamt); `to` = B, the signer, X itself or R.  Contract Y sends 5 unibi to B2, then
 // calls itself; the inner frame calls the precompile (whoAmI), sends 1 unibi to C3 and reverts.
 
 import (
@@ -68,6 +69,8 @@ type c05Tx struct {
 	FE      string    `json:"fe"`     // target f: endowment of the creation
 	FInit   string    `json:"finit"`  // target f: init code outcome ok | revert | oog | invalid
 	FC2     bool      `json:"fc2"`    // target f: CREATE2 instead of CREATE
+	PTo     string    `json:"pto"`    // x modes 7,8,9: recipient of the precompile bank send: "" / B | S (the signer) | X (the caller) | R
+	PAmt    string    `json:"pamt"`   // x mode 9: unibi sent by the precompile after forwarding w wei to the same recipient by CALL
 	WAmt    string    `json:"wamt"`   // target w: unibi attached as funds to the wasm precompile `execute` of contract W
 	WBad    bool      `json:"wbad"`   // target w: execute message the wasm contract does not know (fails)
 	Steps   []c05Step `json:"steps"` // target d: calls the driver contract D makes to X inside this one tx
@@ -115,7 +118,7 @@ type c05Obs struct {
 	SeqA     uint64   `json:"seq_after"`
 }
 
-var c05XInit = mustHex("6100bf600e6000396100bf6000f360003580600114610044578060021461004a578060031461004f57806004146100625780600514610067578060061461006a5780600714610081578060081461009e57005b60006000fd5b61004a565b60006000600060006020356040355af150005b604035ff5b30ff5b60006000600060006020356040355af15060006000fd5b6060360360606000376000600060603603600060006108005af150005b6060360360606000376000600060603603600060006108005af15060006000fd")
+var c05XInit = mustHex("6100f5600e6000396100f56000f36000358060011461004c57806002146100525780600314610057578060041461006a578060051461006f5780600614610072578060071461008957806008146100d457806009146100a657005b60006000fd5b610052565b60006000600060006020356040355af150005b604035ff5b30ff5b60006000600060006020356040355af15060006000fd5b6060360360606000376000600060603603600060006108005af150005b60006000600060006020356040355af1506060360360606000376000600060603603600060006108005af150005b6060360360606000376000600060603603600060006108005af15060006000fd")
 var c05YRuntime = mustHex("33301461004257600060006000600065048c273950007300000000000000000000000000000000000000b25af150366000600037600060003660006000305af150005b3660006000376000600036600060006108005af150600060006000600064e8d4a510007300000000000000000000000000000000000000c35af15060006000fd")
 var c05DInit = mustHex("610045600e6000396100456000f360005b80602035146100435780608002604001803560005280604001356020528060600135604052600060006060600084602001356000355af15050600101610002565b00")
 var c05FInit = mustHex("61003a600e60003961003a6000f360006000600060006020356000355af15060a03560c060003760603561002b5760a0356000604035f050005b60803560a0356000604035f55000")
@@ -324,13 +327,30 @@ func (w *c05World) runCase(t *testing.T, cs c05Case) ([]c05Der, []c05Obs) {
 				data = make([]byte, 96)
 				data[31] = byte(tx.Mode)
 				bigOf(tx.W).FillBytes(data[32:64])
-				copy(data[76:96], B.Bytes())
+				pto := B
+				switch tx.PTo {
+				case "S":
+					pto = from.EthAddr
+				case "X":
+					pto = w.X
+				case "R":
+					pto = R
+				}
+				if tx.Mode == 9 {
+					copy(data[76:96], pto.Bytes())
+				} else {
+					copy(data[76:96], B.Bytes())
+				}
 				switch tx.Mode {
 				case 1, 2, 6, 8:
 					expect = "fail"
 				}
-				if tx.Mode == 7 || tx.Mode == 8 {
-					in, err := embeds.SmartContract_FunToken.ABI.Pack("bankMsgSend", eth.EthAddrToNibiruAddr(B).String(), "unibi", bigOf(tx.W))
+				if tx.Mode == 7 || tx.Mode == 8 || tx.Mode == 9 {
+					amt := bigOf(tx.W)
+					if tx.Mode == 9 {
+						amt = bigOf(tx.PAmt)
+					}
+					in, err := embeds.SmartContract_FunToken.ABI.Pack("bankMsgSend", eth.EthAddrToNibiruAddr(pto).String(), "unibi", amt)
 					if err != nil {
 						t.Fatal(err)
 					}
@@ -605,8 +625,16 @@ func genC05Tx(r *Rng) c05Tx {
 			tx.Steps = append(tx.Steps, st)
 		}
 	case "x":
-		tx.Mode = r.Pick(3, 2, 1, 4, 2, 2, 2, 3, 2)
-		if tx.Mode == 7 || tx.Mode == 8 {
+		tx.Mode = r.Pick(3, 2, 1, 4, 2, 2, 2, 4, 2, 4)
+		if tx.Mode == 7 || tx.Mode == 8 || tx.Mode == 9 {
+			// the recipient of the in-EVM bank send: a fresh account, the signer (dirty through its nonce), the
+			// calling contract, an account that was paid by CALL earlier in the same tx (mode 9)
+			tx.PTo = pickStr(r, "B", "S", "S", "X", "R")
+		}
+		if tx.Mode == 9 {
+			tx.W = pickStr(r, "0", "1000000000000", "3000000000000", "2000000000005", "999999999999")
+			tx.PAmt = pickStr(r, "0", "1", "7", "3", "60")
+		} else if tx.Mode == 7 || tx.Mode == 8 {
 			tx.W = pickStr(r, "0", "1", "7", "50", "51", "1000")
 		} else {
 			tx.W = pickStr(r, "0", "1", "999999999999", "1000000000000", "2000000000005", "50000000000000", "50000000000001", rndWei(r, 60))
@@ -648,6 +676,7 @@ func genC05Bundle(r *Rng) c05Tx {
 		m.Steps = nil
 		m.FV, m.FE, m.FInit, m.FC2 = "", "", "", false
 		m.WAmt, m.WBad = "", false
+		m.PTo, m.PAmt = "", ""
 		m.Signer = r.Intn(3)
 		if i > 0 && r.Chance(1, 4) {
 			m.Signer = subs[0].Signer
@@ -744,6 +773,13 @@ func TestC05(t *testing.T) {
 		ftx("3000000000000", "7000000000000", "ok", false), ftx("2000000000001", "5000000000001", "oog", false)}})
 	run(c05Case{Fund: "1000000000000", RBal: "0", Txs: []c05Tx{ftx("3000000000000", "7000000000000", "invalid", true),
 		ftx("1000000000000", "7000000000000", "revert", true), ftx("0", "7000000000000", "revert", false), ftx("3000000000000", "4000000000000", "ok", true)}})
+	// … a bank send inside an EVM tx to an account that is already dirty in the StateDB: the contract bounces the tx
+	// value back to the signer through bankMsgSend; pays the caller itself; pays R by CALL and then by bank send
+	ptx := func(mode int, value, w, pto, pamt string) c05Tx {
+		return c05Tx{Ty: 0, GasMode: "ample", Gp: base, Tip: "0", Cap: "0", Value: value, Target: "x", Mode: mode, W: w, PTo: pto, PAmt: pamt}
+	}
+	run(c05Case{Fund: "1000000000000", RBal: "0", Txs: []c05Tx{ptx(7, "7000000000000", "7", "S", ""), ptx(7, "3000000000000", "2", "X", ""),
+		ptx(9, "5000000000000", "2000000000000", "R", "3"), ptx(9, "5000000000000", "1000000000000", "S", "4"), ptx(8, "7000000000000", "7", "S", "")}})
 	// … a bank send inside an EVM tx whose recipient is NOT a 20-byte address: the signer calls the wasm precompile
 	// `execute` with unibi funds for a wasm contract (32-byte address), three times, then a failing execute
 	wtx := func(amt string, bad bool) c05Tx {
